@@ -534,3 +534,7 @@ def check_(run, replay, unitcell):
     run.require_counter("orient_BL_calls", 100)
     for k_ in ("identity", "axis90", "pi"):
         run.require_counter("rotation:" + k_, 1)
+
+
+# workloads added in seeding rounds 7-10 (DESIGN.md sections 13.9-13.12)
+LEVEL_TEXT = LEVEL_TEXT + ' Later additions: ring pairs given in descending order and in both orders on one object; completeness of the hkl-pair table (one pair for every inequivalent orientation of every angle class visited); deep cubic cells (P, I, F out to 16+ rings) with the table of every pair of the first sixteen rings checked.'
